@@ -1108,15 +1108,25 @@ where
         heights
     };
 
-    let eval_points = if unique_heights_desc.is_empty() {
-        BTreeMap::new()
-    } else {
+    let eval_points = if let Some(&tallest) = unique_heights_desc.first() {
+        // `precompute_evaluation_points` skips `log_global_max_height - tallest` index bits and
+        // then reads `tallest` of them. The matrix heights come from the proof's degree bits while
+        // `log_global_max_height` comes from its FRI schedule, so the two can disagree.
+        if tallest > log_global_max_height || index_bits.len() < log_global_max_height {
+            return Err(VerificationError::InvalidProofShape(format!(
+                "tallest opened matrix has log height {tallest} but the FRI schedule gives {} \
+                 query index bits for a maximum log height of {log_global_max_height}",
+                index_bits.len()
+            )));
+        }
         precompute_evaluation_points::<F, EF>(
             builder,
             &unique_heights_desc,
             index_bits,
             log_global_max_height,
         )
+    } else {
+        BTreeMap::new()
     };
 
     // height -> (alpha_pow_for_this_height, ro_sum_for_this_height)
